@@ -370,6 +370,7 @@ var siteTable = []struct{ frag, site string }{
 	{"array.NewRecordBatchWithMetadata", "newRecordRows"},
 	{"array.NewRecord", "newRecordRows"},
 	{"(*Writer).AppendRawWithMeta", "walEnvelope"},
+	{"Basekick-Labs/msgpack/v6.", "library:msgpack.Unmarshal"},
 }
 
 var funcLine = regexp.MustCompile(`(?m)^([A-Za-z0-9_./\-]+(?:\(\*?[A-Za-z0-9_]+\))?[A-Za-z0-9_.\[\]…]*)\(`)
@@ -411,7 +412,9 @@ func siteOf(stack string) string {
 	return other
 }
 
-func modelSite(site string) bool { return !strings.HasPrefix(site, "other:") }
+func modelSite(site string) bool {
+	return !strings.HasPrefix(site, "other:") && !strings.HasPrefix(site, "library:")
+}
 
 // which goroutine of the real server died, from the fatal stack of the child
 func goroutineOf(stderr string) string {
@@ -769,7 +772,11 @@ func assembleRecs(r *reqSpec, o *oracle, ws []write) ([]string, bool) {
 		}
 		switch el.(type) {
 		case *models.ColumnarRecord:
-			if i >= len(ws) || ws[i].g == nil {
+			if i >= len(ws) {
+				// nothing (more) reached the buffer layer: the handler answered before Write (name validation)
+				return out, true
+			}
+			if ws[i].g == nil {
 				return nil, false
 			}
 			if !add(ws[i]) {
@@ -780,7 +787,10 @@ func assembleRecs(r *reqSpec, o *oracle, ws []write) ([]string, bool) {
 			}
 			i++
 		case *ingest.TypedColumnarRecord:
-			if i >= len(ws) || ws[i].t == nil {
+			if i >= len(ws) {
+				return out, true
+			}
+			if ws[i].t == nil {
 				return nil, false
 			}
 			if !add(ws[i]) {
@@ -1396,7 +1406,7 @@ func main() {
 	}
 	rn := &runner{c: c, exe: exe, confirmed: map[string]bool{}}
 	r := vh.NewRand(c.Seed)
-	nRandom, childEvery := 260, 40
+	nRandom, childEvery := 200, 50
 	if c.Thorough() {
 		nRandom, childEvery = 2600, 60
 	}
@@ -1414,7 +1424,7 @@ func main() {
 		why := ""
 		if res.suspicious {
 			// one confirmation per (what the parent saw, buffer-size class, WAL); the rest is tagged only
-			sig := fmt.Sprintf("rp=%s fp=%s fin=%v mb=%v wal=%v", res.reqPanic, res.flushPanic, res.finPanic != "", sq.MaxBuf < 100, sq.WAL)
+			sig := fmt.Sprintf("rp=%s fp=%s fin=%v mb=%v", res.reqPanic, res.flushPanic, res.finPanic != "", sq.MaxBuf < 100)
 			sigSeen[sig]++
 			if sigSeen[sig] <= 1 {
 				why = "suspicious"
